@@ -13,3 +13,6 @@ import QV.Properties.C21
 import QV.Properties.C22
 import QV.Properties.C17
 import QV.Properties.C31
+import QV.Properties.C18
+import QV.Properties.C19
+import QV.Properties.C16
